@@ -379,6 +379,10 @@ fn write_sequence(out: &mut impl io::Write, seq: u64) -> Result<usize, io::Error
 
 fn read_sequence(source: &mut impl io::Read, len: usize) -> Result<u64, io::Error> {
     let mut seq_scratch = [0; 8];
+    // The prefix byte can announce up to 15 bytes, a sequence has at most 8
+    if len > seq_scratch.len() {
+        return Err(io::Error::new(io::ErrorKind::InvalidData, "invalid sequence length"));
+    }
     source.read_exact(&mut seq_scratch[0..len])?;
     Ok(u64::from_le_bytes(seq_scratch))
 }
